@@ -10,6 +10,7 @@ import (
 	"github.com/relex/gotils/promexporter/promreg"
 	"github.com/relex/slog-agent/base"
 	"github.com/relex/slog-agent/util"
+	"github.com/relex/slog-agent/util/vhook"
 )
 
 type chunkOperator struct {
@@ -150,32 +151,40 @@ func (op *chunkOperator) LoadChunk(chunkRef *base.LogChunk) bool {
 
 func (op *chunkOperator) UnloadChunk(chunkRef *base.LogChunk) bool {
 	if chunkRef.Saved {
+		vhook.E("Unload", "id", chunkRef.ID, "res", "already")
 		return true
 	}
 	if chunkRef.Data == nil {
 		op.logger.Errorf("BUG: cannot unload nil chunk id=%s. stack=%s", chunkRef.ID, util.Stack())
+		vhook.E("Unload", "id", chunkRef.ID, "res", "nil")
 		return false
 	}
 	if op.maybeDir == nil {
 		// fail silently as expected
+		vhook.E("Unload", "id", chunkRef.ID, "res", "nodir")
 		return false
 	}
 
 	if op.metrics.persistentChunkBytes.Get()+int64(len(chunkRef.Data)) > op.maxTotalBytes {
 		op.logger.Warnf("cannot write chunk file id=%s: space limit reached", chunkRef.ID)
+		vhook.E("Unload", "id", chunkRef.ID, "res", "quota")
 		return false
 	}
 
+	vhook.G("hb.unload.write")
 	if werr := util.WriteFileAt(op.maybeDir, chunkRef.ID, chunkRef.Data, 0o644); werr != nil {
 		op.metrics.ioErrorsTotal.Inc()
 		op.logger.Errorf("error writing chunk id=%s: %s", chunkRef.ID, werr.Error())
+		vhook.E("Unload", "id", chunkRef.ID, "res", "ioerr")
 		return false
 	}
 
+	vhook.G("hb.unload.gauge")
 	op.metrics.persistentChunks.Inc()
 	op.metrics.persistentChunkBytes.Add(int64(len(chunkRef.Data)))
 	chunkRef.Data = nil
 	chunkRef.Saved = true
+	vhook.E("Unload", "id", chunkRef.ID, "res", "saved")
 	return true
 }
 
